@@ -27,6 +27,7 @@ type DecEval struct {
 	Externs   []string
 	ExternArg map[string][]ai.Value
 	Panics    []ssa.Instruction
+	HostPanics []ssa.Instruction
 	Exits     []ssa.Instruction
 	Undecided []string
 	Index     []indexOb
@@ -35,6 +36,14 @@ type DecEval struct {
 	AddrSym   ai.Sym
 	ValSym    ai.Sym
 	PathConds int
+	Elems     []elemAcc // element address computations (array label, index)
+}
+
+type elemAcc struct {
+	Array string
+	Idx   *ai.Int
+	Len   int64
+	At    ssa.Instruction
 }
 
 type indexOb struct {
@@ -61,6 +70,10 @@ func (c *Ctx) cellLabel(k ai.CellKey) string {
 		return k.String()
 	}
 	name := o.TypeKey
+	if strings.HasPrefix(name, "[") || strings.HasPrefix(name, "*") {
+		// anonymous array/slice storage: name it by its allocation site
+		name = "mem:" + strings.NewReplacer("[", "(", "]", ")").Replace(o.Name)
+	}
 	// two objects of one type (the square channels) are told apart by their site
 	if len(c.W.ObjByType[o.TypeKey]) > 1 {
 		name = o.TypeKey + "#" + siteOrdinal(c, o)
@@ -204,6 +217,11 @@ func (c *Ctx) addrValue(lo, hi int) (*ai.Int, ai.Sym) {
 // evalDecoder evaluates Mapper.Read / Mapper.Write for addresses in [lo,hi].
 // setup may adjust the start state (case splits); value is the byte written.
 func (c *Ctx) evalDecoder(write bool, lo, hi int, setup func(st *ai.State), value ai.Value) *DecEval {
+	return c.evalDecoderFrom(nil, write, lo, hi, setup, value)
+}
+
+// evalDecoderFrom is evalDecoder starting from a given state (e.g. the post-state of a write).
+func (c *Ctx) evalDecoderFrom(from *ai.State, write bool, lo, hi int, setup func(st *ai.State), value ai.Value) *DecEval {
 	it := c.W.It
 	fn := c.decoderFn(write)
 	mp := c.mapperPtr()
@@ -212,7 +230,12 @@ func (c *Ctx) evalDecoder(write bool, lo, hi int, setup func(st *ai.State), valu
 		ev.Undecided = append(ev.Undecided, "decoder or mapper object not found")
 		return ev
 	}
-	st := it.StateOn(c.W.Generic)
+	st := from
+	if st == nil {
+		st = it.StateOn(c.W.Generic)
+	} else {
+		st = st.Fork()
+	}
 	if setup != nil {
 		setup(st)
 	}
@@ -265,7 +288,13 @@ func (c *Ctx) evalDecoder(write bool, lo, hi int, setup func(st *ai.State), valu
 			ev.Externs = append(ev.Externs, name)
 			ev.ExternArg[name] = a
 		},
-		Panic:     func(_ *ai.State, at ssa.Instruction) { ev.Panics = append(ev.Panics, at) },
+		Panic: func(st *ai.State, at ssa.Instruction) {
+			if it.DependsOnHost(st.PathDeps) {
+				ev.HostPanics = append(ev.HostPanics, at) // reachable only after a host call failed
+				return
+			}
+			ev.Panics = append(ev.Panics, at)
+		},
 		Exit:      func(_ *ai.State, at ssa.Instruction, _ string) { ev.Exits = append(ev.Exits, at) },
 		Undecided: func(_ *ai.State, at ssa.Instruction, what string) { ev.Undecided = append(ev.Undecided, what+" @ "+c.pos(at)) },
 		Index: func(_ *ai.State, at ssa.Instruction, idx, ln *ai.Int, proven bool) {
@@ -280,6 +309,11 @@ func (c *Ctx) evalDecoder(write bool, lo, hi int, setup func(st *ai.State), valu
 			}
 		},
 		Branch: func(*ai.State, *ssa.If, *ai.Bool) { ev.PathConds++ },
+		Elem: func(_ *ai.State, at ssa.Instruction, o *ai.Object, path string, idx *ai.Int, n int64) {
+			if o.ID <= c.W.NObjInit {
+				ev.Elems = append(ev.Elems, elemAcc{Array: c.cellLabel(ai.CellKey{Obj: o.ID, Path: ai.NormPath(path)}), Idx: idx, Len: n, At: at})
+			}
+		},
 	}
 	res, post := it.CallFunction(st, fn, args, nil)
 	it.Hooks = ai.Hooks{}
